@@ -2,7 +2,9 @@ package props
 
 import (
 	"context"
+	"fmt"
 	"runtime"
+	"sync"
 	"sync/atomic"
 	"testing"
 
@@ -32,9 +34,89 @@ type C15Case struct {
 	C18    *C18Case  `json:"c18,omitempty"`
 	C20    *C20Case  `json:"c20,omitempty"`
 	Storm  *C18Storm `json:"c18storm,omitempty"`
+	Send   *C15Send  `json:"sendstorm,omitempty"`
 }
 
-var c15Families = []string{"c01", "c02", "c02", "c03", "c04", "c07", "c09", "c10", "c11", "c16", "c16rpc", "c17", "c18", "c18rpc", "c18storm", "c20"}
+// C15Send: streams that keep sending while the connection's write side and read side fail in the same instant.
+type C15Send struct {
+	Streams int  `json:"streams"`
+	Unary   int  `json:"unary"`
+	Ser     bool `json:"ser"`
+}
+
+func execC15Send(t *testing.T, c C15Send) (v Verdict) {
+	res := kit.Bubble(t, func() {
+		svc := kit.NewSvc()
+		svc.Unary("u", func(ctx context.Context, req []byte) ([]byte, error) { return req, nil })
+		svc.Stream("sink", true, true, func(s grpcServerStream) error {
+			for {
+				if _, err := kit.RecvBytes(s); err != nil {
+					return nil
+				}
+			}
+		})
+		w := kit.NewWorld(kit.Topo{Kind: "direct", Serialize: c.Ser, Clients: 1}, svc, nil, nil)
+		l := w.Links[0]
+		stop := make(chan struct{})
+		var wg sync.WaitGroup
+		for i := 0; i < c.Streams; i++ {
+			wg.Add(1)
+			go func() {
+				defer wg.Done()
+				cs, err := w.Conn(0).NewStream(context.Background(), kit.StreamDescFor(kit.KindClient), kit.FullMethod("sink"))
+				if err != nil {
+					return
+				}
+				for k := 0; k < 10000; k++ {
+					select {
+					case <-stop:
+						return
+					default:
+					}
+					if kit.SendBytes(cs, []byte{byte(k)}) != nil {
+						return
+					}
+				}
+			}()
+		}
+		for i := 0; i < c.Unary; i++ {
+			wg.Add(1)
+			go func() {
+				defer wg.Done()
+				for k := 0; k < 10000; k++ {
+					select {
+					case <-stop:
+						return
+					default:
+					}
+					if _, err := kit.Invoke(context.Background(), w.Conn(0), "u", []byte{byte(k)}); err != nil {
+						return
+					}
+				}
+			}()
+		}
+		// let them run for a moment of real scheduling, then fail both directions at once
+		for k := 0; k < 50; k++ {
+			runtime.Gosched()
+		}
+		go l.A.FailWrites(nil)
+		go l.A.FailReads(nil)
+		wgDone := make(chan struct{})
+		go func() { wg.Wait(); close(wgDone) }()
+		kit.Settle()
+		close(stop)
+		kit.Settle()
+		w.Shutdown()
+		kit.Settle()
+	})
+	if res.Panic != nil {
+		v.failf("panic: %v\n%s", res.Panic, res.Stack)
+	}
+	v.Info = kit.CaseInfo{Labels: []string{"sendstorm"}, NonTrivial: true, Key: fmt.Sprintf("%+v", c), Sample: c}
+	return
+}
+
+var c15Families = []string{"c01", "c02", "c02", "c03", "c04", "c07", "c09", "c10", "c11", "c16", "c16rpc", "c17", "c18", "c18rpc", "c18storm", "c20", "sendstorm"}
 
 func genC15(t *rapid.T) C15Case {
 	c := C15Case{Family: rapid.SampledFrom(c15Families).Draw(t, "family"), Yield: rapid.SliceOfN(rapid.Byte(), 1, 16).Draw(t, "yield")}
@@ -98,6 +180,8 @@ func genC15(t *rapid.T) C15Case {
 	case "c18storm":
 		x := genC18Storm(t)
 		c.Storm = &x
+	case "sendstorm":
+		c.Send = &C15Send{Streams: rapid.IntRange(1, 8).Draw(t, "streams"), Unary: rapid.IntRange(0, 4).Draw(t, "unary"), Ser: rapid.Bool().Draw(t, "ser")}
 	}
 	return c
 }
@@ -143,6 +227,8 @@ func execC15(t *testing.T, c C15Case) (v Verdict) {
 		inner = execC18(t, *c.C18)
 	case "c18storm":
 		inner = execC18Storm(t, *c.Storm)
+	case "sendstorm":
+		inner = execC15Send(t, *c.Send)
 	case "c20":
 		inner = execC20(t, *c.C20)
 	}
